@@ -304,6 +304,62 @@ pub fn run(ctx: &mut Ctx) {
         }
     });
 
+    // one entry at the start of a 2^31 / 2^32-byte buffer (lazily mapped zero pages), followed by 2^k - c .. 2^k + c bytes
+    // for every c around the entry length: the single-entry parser still consumes exactly that entry, and the list parser
+    // still returns the list (availability computed in 32 bits would see a complete entry as cut short)
+    ctx.floor("giant-window.cases", 500);
+    ctx.sweep("giant-available-window", 3, |ctx, idx| {
+        let mut r = Rng::new(idx ^ 0x61A2);
+        let mut s = gen::sct(&mut r, gen::TINY);
+        s.ext = r.bytes([0usize, 10, 300][idx as usize]);
+        s.sig = r.bytes([0usize, 71, 1000][idx as usize]);
+        let mut w = W::new();
+        s.enc(&mut w);
+        let first = w.b.len();
+        let mut wl = W::new();
+        refenc::sct_list(&mut wl, &[s.clone()]);
+        let list_len = wl.b.len();
+        let mut buf = match gen::lazy_zeroed((1usize << 32) + 8192) {
+            Some(b) => b,
+            None => {
+                ctx.unjudged("giant-buffer-not-allocatable");
+                return;
+            }
+        };
+        for list in [false, true] {
+            let enc = if list { &wl.b } else { &w.b };
+            buf[..enc.len()].copy_from_slice(enc);
+            let n = enc.len();
+            for base in [1usize << 31, 1usize << 32] {
+                for c in 0..=(first.min(120) + 8) {
+                    for total in [2 + base - c, 2 + base + c, base - c, base + c, n + base - c, n + base + c] {
+                        if total > buf.len() || total < n {
+                            continue;
+                        }
+                        let input = &buf[..total];
+                        ctx.eval();
+                        ctx.count("giant-window.cases");
+                        let good = if list {
+                            let r = parse_ct_signed_certificate_timestamp_list(input);
+                            matches!(&r, Ok((rem, l)) if rem.len() == total - list_len && rem.as_ptr() == input[list_len..].as_ptr() && l.len() == 1 && veq(&l[0], &s.expected()))
+                        } else {
+                            let r = parse_ct_signed_certificate_timestamp(input);
+                            matches!(&r, Ok((rem, v)) if rem.len() == total - first && rem.as_ptr() == input[first..].as_ptr() && veq(v, &s.expected()))
+                        };
+                        if !good {
+                            ctx.violation(
+                                format!("c14:giant-available-window:{}", if list { "list" } else { "single" }),
+                                json!({"parser": if list { "parse_ct_signed_certificate_timestamp_list" } else { "parse_ct_signed_certificate_timestamp" }, "encoding_len": n, "input_len": total, "bytes_after_the_structure": total - n}),
+                            );
+                            return;
+                        }
+                    }
+                }
+            }
+        }
+        ctx.shape(&("giant-window", idx));
+    });
+
     // an entry whose inner lengths (extensions, signature) run past the entry's own declared length by exactly 2^16
     // (or by 1, 2, 255, 256, 65535, 65537), with enough data behind it: the entry is malformed, never an SCT
     ctx.floor("single-wrap.cases", 100);
